@@ -692,7 +692,11 @@ func c16SendClose(p *Program, r *Report) {
 			if creates {
 				continue
 			}
-			key := fmt.Sprintf("%s send in %s", fieldOwner(p, f)+"."+f.Name(), fnKey(s.fn))
+			// keyed by the entry through which the send is reached (exported method, goroutine
+			// body, or the first function with several callers), so that extracting the send into
+			// a helper does not turn a known finding into a new one, while a send from another
+			// entry is a new finding
+			key := fmt.Sprintf("%s send via %s", fieldOwner(p, f)+"."+f.Name(), fnKey(sendEntry(p, s.fn)))
 			shared := false
 			for _, c := range closesR[rep(f)] {
 				for l := range c.locks {
@@ -724,4 +728,48 @@ func fieldOwner(p *Program, f *types.Var) string {
 		}
 	}
 	return "?"
+}
+
+var sendCallers map[*ssa.Function][]*ssa.Function
+
+// sendEntry walks from fn up its unique static callers (same package, unexported, not a goroutine
+// body) and returns the first function that is exported, anonymous, or has several callers.
+func sendEntry(p *Program, fn *ssa.Function) *ssa.Function {
+	if sendCallers == nil {
+		sendCallers = map[*ssa.Function][]*ssa.Function{}
+		for _, g := range p.ModuleFuncs() {
+			for _, b := range g.Blocks {
+				for _, ins := range b.Instrs {
+					if ci, ok := ins.(ssa.CallInstruction); ok {
+						if callee := ci.Common().StaticCallee(); callee != nil && callee.Pkg != nil && isModulePkg(callee.Pkg.Pkg) {
+							dup := false
+							for _, x := range sendCallers[callee] {
+								if x == g {
+									dup = true
+								}
+							}
+							if !dup {
+								sendCallers[callee] = append(sendCallers[callee], g)
+							}
+						}
+					}
+				}
+			}
+		}
+	}
+	cur := fn
+	for i := 0; i < 6; i++ {
+		if cur.Parent() != nil {
+			return cur // a function literal (goroutine body, callback)
+		}
+		if obj := cur.Object(); obj != nil && obj.Exported() {
+			return cur
+		}
+		cs := sendCallers[cur]
+		if len(cs) != 1 {
+			return cur
+		}
+		cur = cs[0]
+	}
+	return cur
 }
